@@ -161,7 +161,7 @@ Observe(op, a) == UNCHANGED <<st, map>> /\ lastOp' = Lbl(op, a, 0, 0)
 Next == \/ \E k \in Keys, v \in Vals : Put(k, v)
         \/ \E k \in Keys : Remove(k) \/ Observe("get", k)
         \/ \E i \in Idx : RemoveIdx(i)
-        \/ Clear \/ Observe("size", 0) \/ Observe("walk", 0)
+        \/ Clear \/ Observe("size", 0) \/ Observe("walk", 0) \/ Observe("debug", 0)
 Spec == Init /\ [][Next]_<<st, map, lastOp>>
 Inv == /\ WellFormed(st)
        /\ Abs(st) = map
